@@ -301,6 +301,13 @@ func (e *Engine) tag(ty types.Type) int {
 	return n
 }
 
+// sliceTag: allocation type tag of the backing object that make/append create for a slice type (named slice types
+// share the tag of their unnamed underlying type, since conversion keeps the backing object).
+func (e *Engine) sliceTag(ty types.Type) int {
+	st := ty.Underlying().(*types.Slice)
+	return e.tag(types.NewSlice(st.Elem()))
+}
+
 func (e *Engine) tagByName(name string) (int, bool) {
 	e.mu.Lock()
 	defer e.mu.Unlock()
@@ -796,8 +803,9 @@ func (t *tr) typeFacts(guard, term string, ty types.Type) {
 		t.assume(guard, fmt.Sprintf("(iface_wf %s)", term))
 	case *types.Slice:
 		t.assume(guard, fmt.Sprintf("(and (<= 0 (soff %s)) (<= 0 (slen %s)) (<= (slen %s) (scap %s)) (<= (scap %s) 72057594037927936) (=> (> (scap %s) 0) (> (sref %s) 0)) (>= (sref %s) 0))", term, term, term, term, term, term, term, term))
-		if _, isPtr := u.Elem().Underlying().(*types.Pointer); isPtr && !t.eng.arrayElem[types.TypeString(u.Elem(), nil)] {
-			t.assume(guard, fmt.Sprintf("(=> (> (scap %s) 0) (= (styp %s) %d))", term, term, t.eng.tag(ty)))
+		// a slice whose element type occurs in no array type can only point into an object made by make/append
+		if !t.eng.arrayElem[types.TypeString(u.Elem(), nil)] {
+			t.assume(guard, fmt.Sprintf("(=> (> (scap %s) 0) (= (styp %s) %d))", term, term, t.eng.sliceTag(ty)))
 		}
 	case *types.Map, *types.Chan:
 		t.assume(guard, fmt.Sprintf("(>= %s 0)", term))
@@ -1416,6 +1424,9 @@ func (t *tr) callMods(x ssa.CallInstruction, m *modSet) {
 	fs := t.contractFor(cc)
 	if fs == nil {
 		t.havocAllReal(m)
+		if _, ok := t.eng.specs.Ghosts["callcount"]; ok && cc.StaticCallee() == nil && !cc.IsInvoke() {
+			m.addAll("G_callcount")
+		}
 		if sc := cc.StaticCallee(); sc != nil && t.isHC(sc) {
 			for _, g := range t.eng.specs.GhostOrder {
 				m.addAll("G_" + g)
